@@ -448,3 +448,168 @@ def replay_prim(rec):
         if 'fail' in r and all(r.get(k) == rec.get(k) for k in ('node', 'field', 'vi')):
             return r['fail']
     return None
+
+
+# ---- moving statements between blocks of different depth (re-indentation) ------------------------------------------------
+# the statement is taken (cut / copy) from one block and put (append / insert / replace) into a block of another depth;
+# multi-line literals must keep their value (only str docstrings may be re-indented), continuation lines and comments
+# must follow.  CPython judges source vs tree (Constant values are part of ast.dump).
+MOVE_STMTS = [
+    'b"""x\n  y\n      z"""', '"""x\n  y\n      z"""', 'v = """x\ny\n      z"""', 'v = b"""x\n y"""', 'rb"""\\x\n y"""', 'f"""a\n{b}\n  c"""',
+    '"s" \\\n  "t"', 'b"a" \\\nb"b"', 'g(a,  # c\n  b,\n)', 'if p:\n    q\nelif r:\n    s\nelse:\n    t', 'x = [\n    1,\n2,\n        3]',
+    'def h():\n    """doc\n    more\n  less"""\n    b"""k\nl"""', 'y = a \\\n  + b', 'with o as p:\n  q  # c\n  r', 'try:\n    a\nfinally:\n    b"""m\n n"""',
+    'z = (1,\n\n     2)', 'class K:\n    b"""q\nr"""\n    """not doc\n  x"""', 'for i in j:\n\tk = """t\n\tu"""\n\tl', 'é = "é" \\\n  "ü"  # é',
+]
+MOVE_SHAPES = [
+    # (source with markers, path to source block (cls, field), path to destination block)
+    ('def outer():\n    if a:\n        {S}\n        keep = 1\n    dst = 0\n', ('If', 'body'), ('FunctionDef', 'body')),
+    ('def outer():\n    {S}\n    if a:\n        dst = 0\n', ('FunctionDef', 'body'), ('If', 'body')),
+    ('{S}\nclass C:\n    def m(self):\n        dst = 0\n', ('Module', 'body'), ('FunctionDef', 'body')),
+    ('class C:\n    def m(self):\n        {S}\n        keep = 1\ndst = 0\n', ('FunctionDef', 'body'), ('Module', 'body')),
+    ('if a:\n  {S}\n  keep = 1\nelse:\n        dst = 0\n', ('If', 'body'), ('If', 'orelse')),
+    ('try:\n    dst = 0\nexcept E:\n    {S}\n    keep = 1\n', ('ExceptHandler', 'body'), ('Try', 'body')),
+    ('if a:\n    pass\nelse:\n    if b:\n        {S}\n    else:\n        dst = 0\n', None, None),          # elif conversion family
+]
+MOVE_OPS = ['cut-append', 'copy-append', 'cut-insert0', 'copy-replace', 'cut-putback', 'ast-append']
+
+
+def move_cases():
+    return [('m', si, hi) for si in range(len(MOVE_STMTS)) for hi in range(len(MOVE_SHAPES))]
+
+
+def _indent_stmt(stmt, ind):
+    lines = stmt.split('\n')
+    return ('\n' + ind).join(lines) if False else lines[0] + ''.join('\n' + (ind + l if l.strip() and not _in_literal(stmt, k + 1) else l) for k, l in enumerate(lines[1:]))
+
+
+def _in_literal(stmt, lineno):
+    """is line `lineno` (0-based) of stmt a continuation line of a multi-line string token?"""
+    import io
+    import tokenize
+    try:
+        for t in tokenize.generate_tokens(io.StringIO(stmt + '\n').readline):
+            if t.type in (tokenize.STRING, getattr(tokenize, 'FSTRING_MIDDLE', -1)) and t.start[0] - 1 < lineno <= t.end[0] - 1:
+                return True
+            if tokenize.tok_name[t.type] == 'FSTRING_START':
+                fs = t.start[0] - 1
+            if tokenize.tok_name[t.type] == 'FSTRING_END' and fs < lineno <= t.end[0] - 1:
+                return True
+    except Exception:
+        pass
+    return False
+
+
+def run_move_case(case):
+    from fst import FST
+    _, si, hi = case
+    shape, srcp, dstp = MOVE_SHAPES[hi]
+    ind = shape.split('{S}')[0].rsplit('\n', 1)[-1]
+    src = shape.replace('{S}', _indent_stmt(MOVE_STMTS[si], ind))
+    res = []
+    try:
+        ref = ast.parse(src)
+    except SyntaxError:
+        return res
+    if srcp is None:        # elif conversion: replace the inner `if` by itself / toggle via put of the else body
+        for op in ('elif-true', 'elif-roundtrip'):
+            root = FST(src, 'exec')
+            rec = {'case': list(case), 'src': src, 'cls': 'If', 'field': 'orelse', 'op': op}
+            try:
+                outer = root.body[0]
+                inner = outer.orelse[0]
+                with FST.options(norm=True):
+                    c = inner.copy()
+                    outer.put_slice(c, 0, 1, 'orelse', elif_=True)
+                    if op == 'elif-roundtrip':
+                        c2 = root.body[0].orelse[0].copy()
+                        root.body[0].put_slice(c2, 0, 1, 'orelse', elif_=False)
+            except Exception as e:
+                rec['raised'] = type(e).__name__
+                res.append(rec)
+                continue
+            d = _judge(root)
+            rec['after'] = root.src
+            if d:
+                rec['fail'] = d
+            res.append(rec)
+        return res
+
+    def find(root, p):
+        if p[0] == 'Module':
+            return root
+        best = None
+        for f in root.walk(True):
+            if f.a.__class__.__name__ == p[0]:
+                best = f if p != srcp or best is None else best
+                if p == dstp and any(getattr(s, 'targets', None) and getattr(s.targets[0], 'id', '') == 'dst' for s in getattr(f.a, p[1], [])):
+                    return f
+        return best
+
+    for op in MOVE_OPS:
+        root = FST(src, 'exec')
+        rec = {'case': list(case), 'src': src, 'cls': dstp[0], 'field': dstp[1], 'op': op}
+        try:
+            sb = find(root, srcp)
+            stmt = None
+            for s in getattr(sb, srcp[1]):
+                if not (s.a.__class__.__name__ == 'Assign' and getattr(s.a.targets[0], 'id', '') in ('keep', 'dst')) and s.a.__class__.__name__ not in ('ClassDef',) or s.src.startswith('class K'):
+                    stmt = s
+                    break
+            if stmt is None:
+                continue
+            with FST.options(norm=True):
+                how, where = op.split('-')
+                if how == 'ast':
+                    from fst.astutil import copy_ast
+                    piece = copy_ast(stmt.a)
+                else:
+                    piece = stmt.cut() if how == 'cut' else stmt.copy()
+                piece_src = getattr(piece, 'src', None)
+                if piece_src is not None:
+                    try:
+                        pp = ast.parse(piece_src)
+                        if not isinstance(piece.a, ast.Module):
+                            pp = pp.body[0] if len(pp.body) == 1 else pp
+                        if ast.dump(pp) != ast.dump(piece.a):
+                            rec['fail'] = 'structure differs: the taken piece does not denote its own tree: ' + repr(piece_src)[:120]
+                            rec['after'] = piece_src
+                            res.append(rec)
+                            continue
+                    except SyntaxError as e:
+                        rec['fail'] = f'source no longer parses: taken piece {piece_src!r}: {e}'
+                        rec['after'] = piece_src
+                        res.append(rec)
+                        continue
+                db = find(root, dstp)
+                view = getattr(db, dstp[1])
+                if where == 'append':
+                    view.append(piece)
+                elif where == 'insert0':
+                    view.insert(piece, 0)
+                elif where == 'replace':
+                    view[len(view) - 1].replace(piece)
+                elif where == 'putback':
+                    sb2 = find(root, srcp)
+                    getattr(sb2, srcp[1]).insert(piece, 0)
+        except Exception as e:
+            rec['raised'] = type(e).__name__
+            res.append(rec)
+            continue
+        d = _judge(root)
+        rec['after'] = root.src
+        if d:
+            rec['fail'] = d
+        res.append(rec)
+    return res
+
+
+def move_signature(rec):
+    cls = 'no-parse' if rec['fail'].startswith('source no longer parses') else ('structure' if rec['fail'].startswith('structure') else 'positions')
+    return f"C01|move|{rec['cls']}.{rec['field']}|{rec['op']}/{rec['case'][1]}.{rec['case'][2]}|{cls}"
+
+
+def replay_move(rec):
+    for r in run_move_case(tuple(rec['case'])):
+        if 'fail' in r and r.get('op') == rec.get('op'):
+            return r['fail']
+    return None
